@@ -2,9 +2,11 @@ from specs import KEYS, CHECKS, unit
 
 # lib/controller and lib/controller/federation import lib/controller/localdb, whose
 # login_pam.go imports the cgo package github.com/msteinert/pam; <security/pam_appl.h>
-# is not installed here, so neither package can be compiled as is. The overlay
-# presents a PAM-free login_pam.go (same types, UserAuthenticate returns an error);
-# /repo itself is untouched and PAM login is unrelated to C18/C20.
+# is not installed here, so neither package can be compiled as is (and go's module
+# index ignores overlays of module-cache files, so the third-party package cannot be
+# replaced). The overlay therefore presents a PAM-free login_pam.go (same types,
+# Login/Logout copied, UserAuthenticate returns an error); /repo itself is untouched
+# and PAM login is unrelated to C18/C20.
 PAM_HOOKS = {
     'lib/controller/localdb/login_pam.go': 'harness/federation_c18/hooks/login_pam_nocgo.go',
 }
@@ -13,12 +15,26 @@ KEYS['federation_c18'] = {'pkg': 'lib/controller/federation', 'hooks': PAM_HOOKS
 KEYS['controller_c18'] = {'pkg': 'lib/controller', 'hooks': PAM_HOOKS}
 
 CHECKS['C18'] = {
-    'ready': False,
+    'ready': True,
     'level': 'exploration',
-    'rule': 'tbd',
-    'assumptions': [],
+    'rule': 'grammar-directed signed manifests (vcommon/mgen) decorated with "+A" look-alikes in file/stream names, +R hints and doubly '
+            'signed locators; requested id in {exact PDH, PDH+hints, one hex digit changed, size changed, hash length changed}; local '
+            'backend and 1-4 remotes answer from {honest, one of 6 single-token tamperings, different collection, 404, 5xx/no status, '
+            'hang until cancelled}; answers released in a generated order (sequenced / burst / pre-released). Validity of an answer is '
+            'decided by the reference PDH only. Non-trivial = at least one 200 answer that does not hash to the request, or a remote '
+            'answer relayed with rewritten signatures; distinct = fingerprint of (manifest, request id, every answer, release order). '
+            'Units: fed = federation.Conn.CollectionGet by PDH and by UUID + rewriteManifest; legacy = rewriteSignatures on synthetic '
+            'http.Responses; legacyfan = fetchRemoteCollectionByPDH through the real Handler (ForceLegacyAPI14) against loopback stubs.',
+    'assumptions': [
+        'lib/controller/localdb/login_pam.go is replaced at build time by a PAM-free stand-in (missing C header in the sandbox)',
+        'the answer of the LOCAL cluster is only required to be relayed unchanged (the property speaks about remote clusters)',
+        'legacy path: "an honest remote wins" is asserted only for manifests whose locators are all singly signed (the legacy hash check rejects unsigned locators that carry hints; see notes/C18.md)',
+        'release order is enforced by hand-shakes plus a short settle sleep; the oracle holds for every interleaving, so scheduling noise cannot cause a false alarm',
+        'legacy fan-out: cancellation of hanging remotes is measured (label) but not judged, it is asynchronous on a real connection',
+    ],
     'units': [
-        unit('legacy', 'controller_c18', '^TestVerifC18', {'shards': 4, 'checks': 1500}, {'shards': 1, 'checks': 10}),
-        unit('fed', 'federation_c18', '^TestVerifC18', {'shards': 8, 'checks': 1500}, {'shards': 1, 'checks': 10}),
+        unit('fed', 'federation_c18', '^TestVerifC18', {'shards': 8, 'checks': 1500}, {'shards': 16, 'checks': 40000, 'timeout': 1500}),
+        unit('legacy', 'controller_c18', '^TestVerifC18LegacyRewriteSignatures', {'shards': 4, 'checks': 1500}, {'shards': 8, 'checks': 60000, 'timeout': 1500}),
+        unit('legacyfan', 'controller_c18', '^TestVerifC18LegacyFanOut', {'shards': 4, 'checks': 300}, {'shards': 8, 'checks': 8000, 'timeout': 1500}),
     ],
 }
